@@ -4,7 +4,7 @@
    switches named in Model/C03.v (its_fixed, run_hist_fixed). *)
 From Coq Require Import ZArith List Bool String.
 From BNP Require Import Base.Prims Model.C03 Corr.C03.
-From BNP Require Import Proofs.C03 Proofs.C03_int Proofs.C03_scatter Proofs.C03_fasta Proofs.C03_read Proofs.C03_main.
+From BNP Require Import Proofs.C03 Proofs.C03_int Proofs.C03_scatter Proofs.C03_fasta Proofs.C03_sam Proofs.C03_read Proofs.C03_main.
 From BNP Require Import Gen.C03 Bridge.C03.
 Import ListNotations.
 Open Scope Z_scope.
@@ -132,16 +132,16 @@ Theorem C03_parse_file_serialise_delim :
     parse_file Delim schema (serialise Delim rows) = Some rows.
 Proof. exact parse_file_serialise_delim. Qed.
 Print Assumptions C03_parse_file_serialise_delim.
-(* SAM, no optional tags: the eager writer's 12-column line (trailing TAB) is the canonical spelling of the Spec;
-   the SAM-standard spelling without the trailing TAB (written by the lazy path since /repo 36989fd) reads back as
-   the same row *)
+(* SAM, no optional tags: the canonical line (Spec [ser_sam], both write paths since /repo 81bde1f) is the SAM-standard
+   one, without a TAB before the empty tags cell.  The READER also accepts the old eager spelling (12 columns, trailing
+   TAB) and returns the same row *)
 Theorem C03_sam_empty_tags_spellings :
   forall (pf : list Z -> option (Z * Z)) (ks : list Z) (fs : row), ks <> [] -> Forall2 (cell_ok pf) ks fs ->
     parse_line_with pf (ks ++ [5]) (line_of fs) = Some (fs ++ [FS []])
     /\ parse_line_with pf (ks ++ [5]) (line_of (fs ++ [FS []])) = Some (fs ++ [FS []]).
 Proof. exact parse_line_empty_rest_spellings. Qed.
 Print Assumptions C03_sam_empty_tags_spellings.
-(* ... and so does a whole file in the SAM-standard spelling (TAB before the tags only when there are tags) *)
+(* a whole file in the SAM-standard spelling (TAB before the tags only when there are tags) reads back as the table *)
 Theorem C03_parse_sam_standard_spelling :
   forall (pf : list Z -> option (Z * Z)) (ks : list Z) (recs : list (row * list Z)),
     ks <> [] -> Forall (fun p => Forall2 (cell_ok pf) ks (fst p) /\ ~ In 10 (snd p)) recs ->
@@ -149,6 +149,21 @@ Theorem C03_parse_sam_standard_spelling :
     = Some (map (fun p => fst p ++ [FS (snd p)]) recs).
 Proof. exact parse_sam_std. Qed.
 Print Assumptions C03_parse_sam_standard_spelling.
+(* SAMBuffer.join_fields: join_columns, then the separator before every empty last cell is masked out through the
+   cumulative cell ends — for every table of n >= 2 columns the result is the SAM-standard lines *)
+Theorem C03_sam_join_fields_canonical :
+  forall (n : nat) (rows : list (list (list Z))),
+    (2 <= n)%nat -> Forall (fun r => List.length r = n) rows ->
+    sam_join_fields (columns n rows) (List.length rows) = List.concat (map sam_text_line rows).
+Proof. exact sam_join_fields_rows. Qed.
+Print Assumptions C03_sam_join_fields_canonical.
+(* SAM tables: typed cells + the tags cell; reader o canonical serialisation = id *)
+Theorem C03_parse_serialise_sam :
+  forall (pf : list Z -> option (Z * Z)) (ks : list Z) (rows : list row),
+    ks <> [] -> Forall (sam_row_ok pf ks) rows ->
+    parse_raw_with pf Sam (ks ++ [5]) (serialise Sam rows) = Some rows.
+Proof. exact parse_serialise_sam. Qed.
+Print Assumptions C03_parse_serialise_sam.
 (* float columns: for ANY printer pr and reader pf of float text such that pf inverts pr (round-trip hypothesis,
    A-FLOAT: Python str(float) / the library's str_to_float) and pr emits no TAB/LF, tables whose float cells carry
    pr's text are read back unchanged *)
@@ -198,6 +213,11 @@ Theorem C03_write_pieces_delim :
     run_hist Delim [] gz h = (0, serialise Delim (rows_of_hist h)).
 Proof. exact write_pieces_delim. Qed.
 Print Assumptions C03_write_pieces_delim.
+Theorem C03_write_pieces_sam :
+  forall (gz : bool) (h : list session), hist_ok Sam h -> tail_appends h ->
+    run_hist Sam [] gz h = (0, serialise Sam (rows_of_hist h)).
+Proof. exact write_pieces_sam. Qed.
+Print Assumptions C03_write_pieces_sam.
 Theorem C03_write_pieces_fasta :
   forall (w : Z) (gz : bool) (h : list session), hist_ok (Fasta w) h -> tail_appends h ->
     run_hist (Fasta w) [] gz h = (0, serialise (Fasta w) (rows_of_hist h)).
@@ -216,6 +236,12 @@ Theorem C03_roundtrip_delim :
     parse_raw_with pf Delim schema (snd (run_hist Delim [] gz h)) = Some (rows_of_hist h).
 Proof. exact roundtrip_delim. Qed.
 Print Assumptions C03_roundtrip_delim.
+Theorem C03_roundtrip_sam :
+  forall pf (ks : list Z) (gz : bool) (h : list session),
+    ks <> [] -> hist_ok Sam h -> tail_appends h -> Forall (sam_row_ok pf ks) (rows_of_hist h) ->
+    parse_raw_with pf Sam (ks ++ [5]) (snd (run_hist Sam [] gz h)) = Some (rows_of_hist h).
+Proof. exact roundtrip_sam. Qed.
+Print Assumptions C03_roundtrip_sam.
 Theorem C03_roundtrip_vcf :
   forall pf (schema : list Z) (hls : list (list Z)) (gz : bool) (h : list session),
     hist_ok Vcf h -> tail_appends h -> Forall header_line_ok hls -> Forall (vcf_row_ok pf schema) (rows_of_hist h) ->
@@ -280,6 +306,17 @@ Theorem C03_model_ok_spec_ok_delim :
     model_ok c = true -> spec_ok c = true.
 Proof. exact model_ok_spec_ok_delim. Qed.
 Print Assumptions C03_model_ok_spec_ok_delim.
+(* SAM cases: k_alt_file holds the OLD eager spelling of the same table (harness-written), which must read back equal *)
+Theorem C03_model_ok_spec_ok_sam :
+  forall (c : case) (ks : list Z),
+    k_fmt c = Sam -> k_header c = [] -> k_schema c = ks ++ [5] -> ks <> [] ->
+    (k_alt_file c = [] \/ k_alt_file c = sam_old_spelling (rows_of_hist (k_hist c))) ->
+    hist_ok Sam (k_hist c) -> tail_appends (k_hist c) ->
+    Forall (sam_row_ok no_float_value ks) (rows_of_hist (k_hist c)) ->
+    forallb float_free_row (rows_of_hist (k_hist c)) = true ->
+    model_ok c = true -> spec_ok c = true.
+Proof. exact model_ok_spec_ok_sam. Qed.
+Print Assumptions C03_model_ok_spec_ok_sam.
 Theorem C03_model_ok_spec_ok_vcf :
   forall (c : case) (hls : list (list Z)),
     k_fmt c = Vcf -> k_header c = header_of hls -> k_alt_file c = [] -> Forall header_line_ok hls ->
@@ -333,7 +370,12 @@ Theorem C03_source_tie :
   /\ gen_vcf_pos_field = "position"%string
   /\ (forall hh ab hw gz,
       gen_write_emits_header hh ab hw = m_emits_header hh ab hw /\ gen_stream_skips_empty = m_stream_skips_empty
-      /\ gen_append_flag_a = mode_is_ab_fixed true gz /\ gen_append_flag_w = mode_is_ab_fixed false gz).
+      /\ gen_append_flag_a = mode_is_ab_fixed true gz /\ gen_append_flag_w = mode_is_ab_fixed false gz)
+  /\ (forall (k : nat) n l c r,
+      gen_sam_from_data_joins_fields = m_sam_eager_joins_fields
+      /\ ((1 <= k)%nat -> gen_sam_tags_start (Z.of_nat k) = Z.of_nat (m_join_nl_start k)) /\ gen_sam_tags_step n = n
+      /\ gen_sam_no_tags l = m_sam_no_tags l /\ gen_sam_cell_end c = m_sam_cell_end c
+      /\ gen_sam_drop_index r n = m_sam_drop_index r n).
 Proof.
   repeat split; intros;
     first [ apply b_fasta_n_lines | apply b_fasta_last_length | apply b_fasta_total | apply b_fasta_fill
@@ -345,7 +387,9 @@ Proof.
           | apply b_olb_hdr_col | apply b_olb_newline | apply b_fastq_offsets | apply b_fastq_n_lines
           | apply b_fastq_header | apply b_fastq_plus | apply b_fastq_plus_position | apply b_fastq_texts
           | apply b_vcf_pos_eager | apply b_vcf_pos_lazy | apply b_vcf_pos_field | apply b_write_emits_header
-          | apply b_stream_skips_empty | apply b_append_flag_a | apply b_append_flag_w ].
+          | apply b_stream_skips_empty | apply b_append_flag_a | apply b_append_flag_w
+          | apply b_sam_from_data | apply b_sam_tags_start; assumption | apply b_sam_tags_step | apply b_sam_no_tags
+          | apply b_sam_cell_end | apply b_sam_drop_index ].
 Qed.
 Print Assumptions C03_source_tie.
 
@@ -442,3 +486,15 @@ Example C03_nonvacuous_floats :
   /\ let rows := [[FS [99]; FI 5; FF (ratio_print 1 2) 1 2]; [FS [100]; FI (-7); FF (ratio_print (-25) 1000) (-25) 1000]] in
      parse_raw_with ratio_read Delim [6; 1; 3] (serialise Delim rows) = Some rows.
 Proof. split; [exact ratio_roundtrip|]. split; [exact ratio_no_sep|]. vm_compute. reflexivity. Qed.
+(* SAM at /repo HEAD: the model writer on a table with and without tags equals the Spec, which has no trailing TAB *)
+Example C03_nonvacuous_sam_writer :
+  let r1 := [FS [114; 49]; FI 99; FS [42]; FS []] in
+  let r2 := [FS [114; 50]; FI 0; FS []; FS [78; 77; 9; 88]] in
+  snd (from_data Sam [r1; r2; r1]) = serialise Sam [r1; r2; r1]
+  /\ serialise Sam [r1] = [114; 49; 9; 57; 57; 9; 42; 10]
+  /\ table_ok Sam [r1; r2; r1].
+Proof.
+  cbv zeta. split; [vm_compute; reflexivity|]. split; [vm_compute; reflexivity|].
+  split; [exists 4%nat; split; [repeat constructor|repeat constructor]|].
+  repeat constructor; unfold small_int; vm_compute; reflexivity.
+Qed.
